@@ -349,3 +349,49 @@ Proof.
   now rewrite (fold_step_naux P (empty A) o0 F).
 Qed.
 End Aux.
+(* ---------------- the rewriting commutes with instantiation: it never looks inside an atom (C06) ---------------- *)
+Section Natural.
+Variables A B : Type.
+Variable f : A -> B.                (* instantiation of atom schemata: the atoms of a rule are replaced by their instances *)
+Definition map_fbatom (b : fbatom A) : fbatom B :=
+  match b with FAt _ a l t => FAt B (f a) l t | FInit _ a => FInit B (f a) | FKwI _ => FKwI B | FKwF _ => FKwF B | FTel _ => FTel B end.
+Definition map_fhead (h : fhead A) : fhead B :=
+  match h with FNorm _ a n => FNorm B (f a) n | FDisj _ l => FDisj B (map f l) | FChoice _ l => FChoice B (map f l) | FCons _ => FCons B | FTelHead _ => FTelHead B end.
+Definition map_frule (r : frule A) : frule B := {| fp := fp A r; fh := map_fhead (fh A r); fb := map (fun l => (fst l, map_fbatom (snd l))) (fb A r) |}.
+Definition map_qatom (q : qatom A) : qatom B :=
+  match q with QU _ a tm => QU B (f a) tm | QFut _ a n tm => QFut B (f a) n tm | QI _ => QI B | QF _ => QF B | QFU _ => QFU B | QTel _ => QTel B end.
+Definition map_qhead (h : qhead A) : qhead B :=
+  match h with QHAtom _ p => QHAtom B (map_qatom p) | QHDisj _ l => QHDisj B (map f l) | QHChoice _ l => QHChoice B (map f l) | QHCons _ => QHCons B | QHAux _ k => QHAux B k end.
+Definition map_qrule (r : qrule A) : qrule B := {| qh := map_qhead (qh A r); qb := map (fun l => (fst l, map_qatom (snd l))) (qb A r) |}.
+Definition map_tres (t : tres A) : tres B := {| t_rule := map_qrule (t_rule A t); t_shift := t_shift A t; t_fut := map (fun x => (f (fst x), snd x)) (t_fut A t) |}.
+Lemma tr_blit_natural sh l : tr_blit B sh (fst l, map_fbatom (snd l)) = option_map (fun y => ((fst (fst y), map_qatom (snd (fst y))), snd y)) (tr_blit A sh l).
+Proof.
+  destruct l as [s b]. destruct b as [a lead trail|a| | |]; cbn [tr_blit fst snd map_fbatom].
+  - destruct (decide sh (BodyLit (is_pos s)) lead 1 trail false) as [[|] la ts tz| | |]; reflexivity.
+  - destruct (decide sh (BodyLit (is_pos s)) 0 1 0 true) as [[|] la ts tz| | |]; reflexivity.
+  - reflexivity.
+  - reflexivity.
+  - destruct (is_constraint_gen _ _ _ _ _ _) as [c|]; [|reflexivity]. destruct (tel_ctx_reject_gen (negb (is_pos s)) c) as [[|]|]; reflexivity.
+Qed.
+Lemma tr_body_natural sh : forall l, tr_body B sh (map (fun x => (fst x, map_fbatom (snd x))) l) =
+  option_map (fun y => (map (fun z => (fst z, map_qatom (snd z))) (fst y), snd y)) (tr_body A sh l).
+Proof.
+  induction l as [|x l IH]; cbn [map tr_body]; [reflexivity|]. rewrite (tr_blit_natural sh x), IH.
+  destruct (tr_blit A sh x) as [[y m]|]; cbn [option_map]; [|reflexivity]. destruct (tr_body A sh l) as [[ys n]|]; reflexivity.
+Qed.
+Lemma shape_natural h : shape_of B (map_fhead h) = shape_of A h.
+Proof. destruct h; reflexivity. Qed.
+Theorem transform_rule_natural (r : frule A) : transform_rule B (map_frule r) = option_map map_tres (transform_rule A r).
+Proof.
+  unfold transform_rule. cbn [map_frule fh fb fp]. rewrite shape_natural, tr_body_natural.
+  assert (tr_head B (map_fhead (fh A r)) = option_map (fun y => (map_qhead (fst y), map (fun x => (f (fst x), snd x)) (snd y))) (tr_head A (fh A r))) as ->.
+  { destruct (fh A r) as [a n|l|l| |]; cbn [map_fhead tr_head]; rewrite ?shape_natural.
+    - change (shape_of B (FNorm B (f a) n)) with (shape_of A (FNorm A a n)). destruct (decide (shape_of A (FNorm A a n)) HeadLit 0 1 n false) as [ren [|] ts tz| | |]; try reflexivity. destruct ren; reflexivity.
+    - change (shape_of B (FDisj B (map f l))) with (shape_of A (FDisj A l)). destruct (plain_elem (shape_of A (FDisj A l))); reflexivity.
+    - change (shape_of B (FChoice B (map f l))) with (shape_of A (FChoice A l)). destruct (plain_elem (shape_of A (FChoice A l))); reflexivity.
+    - reflexivity.
+    - reflexivity. }
+  destruct (tr_head A (fh A r)) as [[hd fut]|]; cbn [option_map]; [|reflexivity]. destruct (tr_body A (shape_of A (fh A r)) (fb A r)) as [[bd m]|]; cbn [option_map]; [|reflexivity].
+  unfold map_tres, map_qrule. cbn [t_rule t_shift t_fut qh qb fst snd]. f_equal. f_equal. f_equal. rewrite map_app. f_equal. destruct (is_final (fp A r)); reflexivity.
+Qed.
+End Natural.
